@@ -107,6 +107,7 @@ def run_property(prop, tier, repo_root, seed, open_findings):
         solver_seconds += r['seconds']
 
     results = solve.discharge_all([ob for _, ob in plain], timeout_s=timeout, confirm=confirm)
+    open_obs = []
     for (key, ob), r in zip(plain, results):
         account(r)
         if good(r):
@@ -119,7 +120,37 @@ def run_property(prop, tier, repo_root, seed, open_findings):
             from . import replay
             violations.append(replay.violation_for(eng, key, ob, r, repo_root))
         else:
-            undecided.append({'name': ob.name, 'reason': 'solver %s %s' % (r['by'], json.dumps(r.get('detail')))})
+            open_obs.append((key, ob, r))
+    # obligations the solvers left open: a bounded search for a small counterexample decides some
+    # of them (a model found under bounds is a model); the rest stay undecided
+    def refute(queries):
+        for text, extra, bound in queries:
+            r2 = solve.race(text, 10)
+            if r2['verdict'] == 'sat':
+                r2['bounded_search'] = bound
+                return r2, extra
+        return None, None
+    if open_obs:
+        from concurrent.futures import ThreadPoolExecutor
+        prepared = [solve.bounded_queries(ob) for _, ob, _ in open_obs[:12]]
+        with ThreadPoolExecutor(4) as pool:
+            outs = list(pool.map(refute, prepared))
+        outs += [(None, None)] * (len(open_obs) - len(outs))
+        reported = set()
+        for (key, ob, r), (r2, extra) in zip(open_obs, outs):
+            if r2 is not None:
+                account(r2)
+                base = ob.name.split('#')[0]
+                if base in reported:
+                    continue
+                reported.add(base)
+                from . import replay
+                from .symex import Obligation
+                ob2 = Obligation(ob.name, ob.kind, list(ob.pc) + list(extra), ob.goal, ob.info)
+                r2['name'] = ob.name
+                violations.append(replay.violation_for(eng, key, ob2, r2, repo_root))
+            else:
+                undecided.append({'name': ob.name, 'reason': 'solver %s %s' % (r['by'], json.dumps(r.get('detail')))})
     # obligations proved by induction (InductionGroup): closure of the hypotheses, base + step, direct
     if groups:
         flat = [(gi, o) for gi, g in enumerate(groups) for o in g.closure_obligations()]
